@@ -292,7 +292,7 @@ func NewJPLookupCount(rec *Recorder) int {
 }
 
 func genC18(t *rapid.T) *Scenario {
-	sc := GenProgScenario(t, ProgCfg{Standard: true})
+	sc := genStandard(t)
 	var ex c18Extra
 	ex.Tracer = []string{"struct", "callTracer", "flatCallTracer", "prestateTracer", "4byteTracer", "access", ""}[uniform(t, 0, 6, "tracer")]
 	cfg := map[string]bool{}
